@@ -1,3 +1,4 @@
 import SC.Audit
 import SC.Properties.C02
+import SC.Properties.Src.C02
 #audit C02
